@@ -6,6 +6,7 @@
    X11 daemon.Run role dispatch, Launch outcomes off the protocol (DaemonRole.tla)
    X12 osutil.WaitFor / WaitForInterrupt / WaitForStop over delivered signals (WaitFor.tla)
    X13 config.FromCommandLine in child processes (CmdLine.tla on top of ArgParse.tla), ioutil.SeekAndReadAll (SeekRead.tla)
+   X16 the dispatch protocol of httpd.Mux: HandleRelay / HandleNoRoute at any time, who is invoked with which RouteInfo; CookieValue (Dispatch.tla)
    X15 the time side of PushTask / SetTimeout (PushTimeout.tla): not before the timeout configured when the call began, per-call timers
    X14 TaskLane.ShortestQueueIndex on lanes at rest, under load and as the lane chooser of a producer (LanePick.tla)"""
 import json
@@ -73,6 +74,16 @@ def run(ctx, which):
         what = lambda c: "tag %r on field %s: rejected=%s found=%s name=%r default=%r usage=%r" % (
             bytes(c["tag"]).decode("latin1"), bytes(c["field"]).decode(), c["rejected"], c["found"], bytes(c["name"]).decode("latin1"),
             bytes(c["def"]).decode("latin1"), bytes(c["usage"]).decode("latin1"))
+    elif which == "X16":
+        ctx.run([hb, "-mode", "dispatch", "-out", out], timeout=600)
+        rows = vlib.read_ndjson(out)
+        bad, _, _ = judge(ctx, "httpd", "Dispatch", rows, per_shard=2500, workers=1, timeout=900)
+        def what(c):
+            if c["kind"] == "cookie":
+                return "CookieValue(%r) = %r on a request carrying %s" % (bytes(c["name"]).decode(), bytes(c["got"]).decode("latin1"),
+                                                                           [(bytes(x["n"]).decode(), bytes(x["v"]).decode("latin1")) for x in c["cs"]])
+            return "history %s" % [((o["op"], o["k"]) if o["op"] != "req" else ("req", "matched" if o["m"] else "unmatched", [(x["who"], x["k"]) for x in o["seen"]], o["wire"],
+                                    bytes(o["ipath"]).decode(), bytes(o["imethod"]).decode())) for o in c["ops"]]
     elif which == "X11":
         ctx.run([hb, "-mode", "roles", "-out", out], timeout=300)
         rows = vlib.read_ndjson(out)
